@@ -152,6 +152,14 @@ class Monitor:
         reqs = [d for d in self.sent.get(addr, [])]
         nresp = self.seen_out.get(addr, 0) + 1
         obs = doc.get("observation")
+        # C09: the request this response answers (responses come in the order of the requests of a connection)
+        if nresp - 1 < len(reqs):
+            rq = reqs[nresp - 1]
+            k = rq.get("kind")
+            bad_request = (k in ("garbage", "undecodable") or (k == "game" and not rq.get("valid", True)) or
+                           (k == "join" and (not rq.get("info", True) or not isinstance(rq.get("role"), str) or rq.get("role") not in ("Attacker", "Defender", "Benign"))))
+            if bad_request and st in ("OK", "CREATED", "RESET_DONE"):
+                self.hit("C09", "bad request accepted", f"a request that is not well formed ({k}: {str(rq.get('_text') or '')[:160]}) was answered with {st} instead of an error status")
         if st in ("CREATED", "RESET_DONE"):
             held = g._agent_states.get(addr)
             if held is not None and self.S.view_id(held) != self.S.view_id(obs["state"]):
@@ -390,7 +398,7 @@ def instrument(S, cfg, CR, goals):
         if orig_send(addr, text, desc) is False:
             return False                      # not sendable (connection ended / previous message unread): no event
         M.pending.setdefault(addr, []).append(desc)
-        M.sent.setdefault(addr, []).append(desc)
+        M.sent.setdefault(addr, []).append(dict(desc, _text=(text if isinstance(text, str) else repr(text))[:200]))
         return True
     S.send = send
     orig_settle = S.settle
@@ -402,7 +410,7 @@ def instrument(S, cfg, CR, goals):
     return M
 
 
-def run_sessions(ctx, prop, n_sessions, gen_opts, cfg_opts=None, extra_monitor=None, n_directed=32):
+def run_sessions(ctx, prop, n_sessions, gen_opts, cfg_opts=None, extra_monitor=None, n_directed=34):
     """Generate sessions, follow them with the model, collect this property's monitor hits."""
     CG, CR, nsgenv = _imports()
     rng0 = random.Random(ctx.seed * 104729 + int(prop[1:]))
